@@ -705,8 +705,8 @@ std::vector<OptRef> collect_opts(Rng &r, const json &opts)
 }
 
 // the first NT titles are used for add / remove: one contains '=', "t1" is a proper prefix of "t10" and "t" of both
-static const char *TITLES[] = {"t10", "t1", "a=b", "t", "x|y", "it's", "", "T0", "a b", "q'x"};
-static const int NT = 7;
+static const char *TITLES[] = {"t10", "t1", "a=b", "t", "x|y", "it's", "", "T1", "T0", "a b", "q'x"};
+static const int NT = 8;
 
 // a title as written in a path: bare, properly quoted, or quoted and malformed
 static std::string path_title(Rng &r, const std::string &t)
